@@ -152,8 +152,14 @@ def impl(case):
                 f.write(hline(h))
             if case["repeat"]:
                 f.write("R\t1\t5\t9\tREP1\n")
-            for h in case["haps"]:
-                f.write(vlines(h))
+            if C.plumb(case, "v-lines", 3) == 0:
+                # the V lines of all haplotypes in one run ordered by position (what sorting a .hap file by coordinate gives): the
+                # lines of one haplotype are then separated by lines of the others
+                allv = [l for h in case["haps"] for l in vlines(h).splitlines(True)]
+                f.write("".join(sorted(allv, key=lambda l: int(l.split("\t")[2]))))
+            else:
+                for h in case["haps"]:
+                    f.write(vlines(h))
     C.end_file(case, "h.hap", d / "h.hap")
     want = None
     if case["samples"]:
@@ -169,6 +175,8 @@ def impl(case):
 
         index_haps(d / "h.hap", sort=case["indexed"] != "concat", output=d / "hs.hap.gz", log=SD.silent_log())
         hapfile = d / "hs.hap.gz"
+    # PGEN input is read in chunks of any size: none, 1, sizes that divide the number of variants and sizes that do not, beyond it
+    chunk = [None, 1, 2, 3, 4, 50][C.plumb(case, "chunk", 6)] if case["pgen"] else None
     if want and C.plumb(case, "route", 3) == 0:
         # the same request through the command line, the samples in a file (in file order of the user's choosing; half of these
         # files end without a final newline)
@@ -177,7 +185,7 @@ def impl(case):
 
         lst = sorted(want, reverse=True)
         open(d / "keep.txt", "w").write("\n".join(lst) + ("" if C.plumb(case, "list-ending", 2) == 0 else "\n"))
-        args = ["ld", "-S", str(d / "keep.txt"), "-o", str(out)] + (["--from-gts"] if case["from_gts"] else [])
+        args = ["ld", "-S", str(d / "keep.txt"), "-o", str(out)] + (["--from-gts"] if case["from_gts"] else []) + (["--chunk-size", str(chunk)] if chunk is not None else [])
         for i in case["ids"] or []:
             args += ["--id", i]
         r = CliRunner().invoke(main, args + [case["target"], str(gf), str(hapfile)], catch_exceptions=True)
@@ -186,7 +194,7 @@ def impl(case):
                 raise r.exception
             raise ValueError(f"haptools ld exited with status {r.exit_code}: {r.output[-200:]}")
     else:
-        calc_ld(case["target"], gf, hapfile, samples=want, ids=None if case["ids"] is None else tuple(case["ids"]), from_gts=case["from_gts"], output=out, log=SD.silent_log())
+        calc_ld(case["target"], gf, hapfile, samples=want, ids=None if case["ids"] is None else tuple(case["ids"]), from_gts=case["from_gts"], chunk_size=chunk, output=out, log=SD.silent_log())
     rows = []
     if case["from_gts"]:
         lines = open(out).read().splitlines()
